@@ -769,11 +769,13 @@ namespace
             {
                 // Get navigation path
                 std::vector<std::string> path;
-                do
+                // (a null config has no path, the root has no parent)
+                while (!nav.empty())
                 {
                     path.push_back(nav->name);
+                    if (nav->id_parent_logical == config::invalid_id) { break; }
                     nav = nav.parent_logical();
-                } while (nav->id_parent_logical != config::invalid_id);
+                }
                 runtime.__logmsg(err::ConfigEntryNotFoundWeak(runtime.context_active().current_frame().diag_info_from_position(), path, test_type_str));
                 return {};
             }
